@@ -528,8 +528,8 @@ fn honest_cert(e: &Epoch, ty: usize, slot: u64, hash: u64, s1: &BTreeSet<usize>,
     let opt = |s: &BTreeSet<usize>, pl: Pl| if s.is_empty() { None } else { Some(honest_agg(e, s, pl)) };
     match ty {
         0 => CertD::N(slot, hash, honest_agg(e, &union, Pl::N(slot, hash)), stake_of(e, &union)),
-        1 => CertD::NF(slot, hash, opt(s1, Pl::N(slot, hash)), opt(s2, Pl::NF(slot, hash)), stake_of(e, s1) + stake_of(e, s2)),
-        2 => CertD::S(slot, opt(s1, Pl::S(slot)), opt(s2, Pl::SF(slot)), stake_of(e, s1) + stake_of(e, s2)),
+        1 => CertD::NF(slot, hash, opt(s1, Pl::N(slot, hash)), opt(s2, Pl::NF(slot, hash)), stake_of(e, s1).wrapping_add(stake_of(e, s2))),
+        2 => CertD::S(slot, opt(s1, Pl::S(slot)), opt(s2, Pl::SF(slot)), stake_of(e, s1).wrapping_add(stake_of(e, s2))),
         3 => CertD::FF(slot, hash, honest_agg(e, &union, Pl::N(slot, hash)), stake_of(e, &union)),
         _ => CertD::F(slot, honest_agg(e, &union, Pl::F(slot)), stake_of(e, &union)),
     }
@@ -538,6 +538,10 @@ fn honest_cert(e: &Epoch, ty: usize, slot: u64, hash: u64, s1: &BTreeSet<usize>,
 fn gen_epoch(cx: &mut Cx, rng: &mut Rng, n: usize, shape: u64) -> Epoch {
     let mut keys: Vec<usize> = (0..n).collect();
     rng.shuffle(&mut keys);
+    // now and then two validators share a voting key (the symbolic semantics is by key)
+    if n >= 2 && rng.chance(1, 8) {
+        keys[1] = keys[0];
+    }
     let stakes: Vec<u64> = (0..n)
         .map(|_| match shape {
             0 => 1,
@@ -603,7 +607,12 @@ fn split(rng: &mut Rng, s: &BTreeSet<usize>, overlap: bool) -> (BTreeSet<usize>,
 
 fn main() {
     let args = Args::parse();
-    quiet_panics();
+    // silence panics of the code under test (caught and reported), keep the harness' own
+    std::panic::set_hook(Box::new(|info| {
+        if info.location().is_some_and(|l| l.file().contains("harness") || l.file().ends_with("c09.rs")) {
+            eprintln!("{info}");
+        }
+    }));
     let mut rng = Rng::new(args.seed);
     // the key pool does not depend on the seed of the run (signatures are cached per process)
     let mut krng = Rng::new(0xC09);
@@ -611,7 +620,7 @@ fn main() {
     let ed_pk = signature::SecretKey::new(&mut krng).to_pk();
     let mut cx = Cx { rec: Recorder::new(), sks, sig1: HashMap::new(), sigs: HashMap::new(), ed_pk, class: 0, accepted: 0, rejected: 0 };
     let max_n: usize = if args.thorough { 40 } else { 14 };
-    let rounds = if args.thorough { 260 } else { 42 };
+    let rounds = if args.thorough { 700 } else { 42 };
     let mut per_ty: BTreeMap<String, u64> = BTreeMap::new();
 
     for round in 0..rounds {
@@ -716,7 +725,8 @@ fn main() {
                 let c = honest_cert(&e, ty, slot, hash, &s1, &s2);
                 let out = cx.cert(&e, &c, why);
                 *per_ty.entry(format!("{}:{out}", c.ty())).or_default() += 1;
-                if rng.chance(1, 3) {
+                // (the constructors sum the stake of both halves in u64: skip where that overflows)
+                if rng.chance(1, 3) && stake_of(&e, &s1).checked_add(stake_of(&e, &s2)).is_some() {
                     cx.constructor_agrees(&e, &c);
                 }
                 // the declared stake figure is not trusted
